@@ -427,9 +427,11 @@ def child_main():
     sys.stdout.write("\n@@RESULT@@" + json.dumps(out) + "\n")
 
 
-def run_in_fresh_interpreter(jobs, timeout=900):
+def run_in_fresh_interpreter(jobs, timeout=900, hashseed=4242):
+    env = _child_env()
+    env["PYTHONHASHSEED"] = str(hashseed)        # ./check pins 0 for the parent: a different value in the child exposes
     p = subprocess.run([sys.executable, "-c", CHILD_CODE], input=json.dumps(jobs), capture_output=True, text=True,
-                       cwd=leanio.VERIF, env=_child_env(), timeout=timeout)
+                       cwd=leanio.VERIF, env=env, timeout=timeout)   # any dependence on str-hash / set order
     if p.returncode != 0 or "@@RESULT@@" not in p.stdout:
         raise RuntimeError("fresh interpreter failed: " + (p.stderr or p.stdout)[-1500:])
     return json.loads(p.stdout.split("@@RESULT@@", 1)[1])
@@ -616,6 +618,11 @@ def fit_logreg(c, n_jobs):
         return [m.coef_, m.intercept_, m.predict_proba(Xt)]
 
 
+def _numerically_equal(a, b, rel=1e-6):
+    return all(np.shape(x) == np.shape(y) and np.allclose(x, y, rtol=rel, atol=rel * max(1.0, float(np.max(np.abs(x)))))
+               for x, y in zip(a, b))
+
+
 def describe_logreg_diff(d):
     return f"{['coef_', 'intercept_', 'predict_proba'][d[0]] if 0 <= d[0] < 3 else d[0]} element {d[1]}: {d[2]!r} vs {d[3]!r}"
 
@@ -631,6 +638,12 @@ def check_logreg(ctx, cases):
             outs = fit_logreg(c, nj)
             d = first_diff(refs[i], outs)
             ctx.case(("logreg-njobs", c["n"], c["classes"], nj, c["seed"]))
+            if d and _numerically_equal(refs[i], outs):
+                # not a seeding difference: the optimiser ran in another process (other BLAS threading) and its result
+                # moved in the last digits; wrong / reused noise moves coefficients by O(1)
+                ctx.boundary_skipped += 1
+                ctx.count("logreg_njobs_equal_up_to_1e-6_only")
+                continue
             if d:
                 ok[i] = False
                 ctx.violation("C15:logreg:shared-rng:n_jobs",
@@ -649,6 +662,10 @@ def check_logreg_repeat(ctx, c, reps=3):
         outs = fit_logreg(c, 2)
         d = first_diff(ref, outs)
         ctx.case(("logreg-repeat", c["classes"], c["seed"], k))
+        if d and _numerically_equal(ref, outs):
+            ctx.boundary_skipped += 1
+            ctx.count("logreg_njobs_equal_up_to_1e-6_only")
+            continue
         if d:
             ctx.violation("C15:logreg:shared-rng:repeat",
                           f"LogisticRegression(random_state={c['seed']}, n_jobs=2) on {c['n']} rows, {c['classes']} classes: "
@@ -856,17 +873,17 @@ def check(ctx):
         ctx.disagree("catalogue", miss, "every public entry point has an entry", "no entry for " + ", ".join(miss),
                      "a new entry point with random_state= is not covered by the C15 catalogue")
     # (a)(b)(c)
-    check_entries(ctx, n_cases=ctx.budget(2, 12), n_fresh=ctx.budget(1, 3))
+    check_entries(ctx, n_cases=ctx.budget(3, 40), n_fresh=ctx.budget(1, 6))
     # (d) forest
     r = ctx.fork("parallel")
-    fcases = [forest_case(r) for _ in range(ctx.budget(5, 60))]
+    fcases = [forest_case(r) for _ in range(ctx.budget(8, 200))]
     for c in fcases:
         check_forest_njobs(ctx, c)
     # (e) discipline + subsets
     lean_lines, lean_expect = [], []
-    for i, c in enumerate(fcases[:ctx.budget(5, 40)]):
+    for i, c in enumerate(fcases[:ctx.budget(8, 100)]):
         check_discipline(ctx, c, N_JOBS[i % 4], lean_lines, lean_expect)
-    check_subset_sweep(ctx, ctx.budget(150, 3000), lean_lines, lean_expect)
+    check_subset_sweep(ctx, ctx.budget(200, 6000), lean_lines, lean_expect)
     outs = leanio.run_driver("Schedule", lean_lines)
     for (unit, inp), impl, out in zip((e[0] for e in lean_expect), (e[1] for e in lean_expect), outs):
         model = [int(x) for x in out.split()] if out != "bad-op" and out else []
@@ -884,7 +901,7 @@ def check(ctx):
         if len(parts) != 4 or parts[0] != parts[1] or parts[2] == parts[3]:
             ctx.disagree("schedule.toy", "sched", line, "owned: equal, shared: different")
     # (d) logistic regression (process workers)
-    lcases = [logreg_case(r) for _ in range(ctx.budget(3, 16))]
+    lcases = [logreg_case(r) for _ in range(ctx.budget(4, 40))]
     check_logreg(ctx, lcases)
     check_logreg_repeat(ctx, logreg_case(r, many=True), reps=ctx.budget(3, 8))
     ctx.sample({"entry": "models.RandomForestClassifier", "case": fcases[0], "n_jobs_compared": list(N_JOBS),
